@@ -212,7 +212,7 @@ Lemma ta_reserve_ledger s cid g s' : ta_reserve t s cid g = Ok s' -> ledger_shap
 Proof.
   unfold ta_reserve, ledger_shape. destruct (g_type g) eqn:Hty.
   - destruct (negb _); [discriminate|]. destruct (negb _); [discriminate|]. destruct (_ <? _); [discriminate|].
-    destruct (negb (spare_allb _ _ _ _)); [discriminate|]. destruct (_ && _); [discriminate|].
+    destruct (negb (spare_allb _ _ _ _)); [discriminate|].
     intros [= <-]. exists g. split; [reflexivity|]. unfold contrib. rewrite Hty.
     cbn [gr_shared gr_reserved set_grants add_shared account_alloc cputype_eqb].
     split; intros q; [rewrite upd_add; destruct (Nat.eqb (g_pool g) q); cbn [andb]; reflexivity|rewrite andb_false_r; lia].
